@@ -317,7 +317,11 @@ def run(ses, rep):
     for fs in ("default", "full"):
         flagged += overrides(ses, rep, fs)
     flagged += editorconfig(ses, rep)
-    rep.samples.append({"flagged": [(f[0], f[1]) for f in flagged][:6]})
+    # the mapping only matters if every configuration route applies it: override dominance over src/cli/config.rs
+    from .. import cfgorigin
+    routes = cfgorigin.analyse(ses, rep)
+    cfgorigin.confirm(rep, routes, "C20")
+    rep.samples.append({"flagged": [(f[0], f[1]) for f in flagged + routes][:6]})
     if flagged:
         v, rec = carriers()
         for oid, what, kind, info in flagged:
